@@ -233,6 +233,13 @@ def check(run, project):
     if n_sites < 2 and not run.violations:
         raise AnalysisError(f"C13: only {n_sites} remaining-bytes attach sites found in the pump (expected >= 2)")
     a3(run, project)
+    # A4: a byte is charged to every enclosing region *before* it is read (else an overrun is noticed only after bytes
+    # beyond the region were consumed, and the skip-to-region-end then swallows bytes that belong to the remainder)
+    from ..roles import MarshalRoles
+    from . import c03
+    roles = MarshalRoles(project)
+    c03.r2(run, roles)
+    c03.r4(run, roles)
 
 
 def fmt(items):
